@@ -192,6 +192,8 @@ func (f *FailoverOf[V]) Get(
 	v, freshEnough, hasStale := f.freshEnough(err)
 	if freshEnough {
 		if err = f.refreshStale(ctx, key, v); err != nil {
+			keyLock.err = err
+
 			return val, err
 		}
 	}
